@@ -711,7 +711,7 @@ def _common(h, linear=True):
     h.bounds('moduli (traced, symbolic): Y0 > 0, %g <= E/Y0 <= %g, 0 <= nu <= %g, dt > 0' % (EY_MIN, EY_MAX, NU_MAX),
              'state: 0 <= eqps <= %g, plastic strain symmetric and traceless (inductive: O2), |components| <= %g' % (EQPS_MAX, STRAIN_MAX),
              'displacement gradient: every component in [-%g, %g]' % (STRAIN_MAX, STRAIN_MAX))
-    h.outside('finite-deformation and Seth-Hill kinematics (eigen/log/exp of tensors are not encodable)', 'power-law hardening and rate sensitivity with non-integer exponents',
+    h.outside('finite-deformation and Seth-Hill kinematics beyond their wiring (O9): eigen/log/exp of tensors are not encodable, the log-additivity identity of the multiplicative update is assumed', 'power-law hardening and rate sensitivity with non-integer exponents',
               'rounding error of the evaluation (reals, not floats)',
               'E/Y0 > 1e5: compute_flow_direction treats |dev strain|^2 <= 1e-16 (absolute) as zero, so for E/Y0 ~ 1e8 a state above yield is classified elastic',
               '"along any history": follows from the one-step obligations because the state invariant (eqps >= 0, plastic strain symmetric and traceless) is inductive (O1, O2)')
@@ -1170,3 +1170,149 @@ DESIGNED_NOT_REGISTERED = [
     ('power-law hardening (n = 1) and power-law rate sensitivity (m = 1)', 'not built in this round; outside the claim (stated in h.outside)'),
     ('O4/O6/O7 for Voce', 'chain links (ii)-(iv) are hardening independent, but the closes need flow(x) >= Y0 and the contract at the new eqps with exp instances; not built in this round'),
 ]
+
+
+# ------------------------------------------------------------------------------------------ O9: kinematics wiring (structural)
+@contextlib.contextmanager
+def patched(mod, **kw):
+    old = {k: getattr(mod, k) for k in kw}
+    try:
+        for k, v in kw.items():
+            setattr(mod, k, v)
+        yield
+    finally:
+        for k, v in old.items():
+            setattr(mod, k, v)
+
+
+KINEMATICS = (('small', 'small deformations'), ('finite', 'large deformations'), ('finite_default', None), ('seth_hill', 'seth hill'))
+STUB_TENSOR = ('TensorMath.log_sqrt_symm, pow_symm and exp_symm are replaced at trace time by uninterpreted tensor functions (an arbitrary symbolic 3x3 tensor per '
+               'function; the ARGUMENT handed over by the real code is captured and compared); J2Plastic.compute_state_increment is replaced by an arbitrary '
+               'state increment (10 symbolic values) and its actual arguments are captured (its own behaviour is O1-O7 in small-strain form); '
+               'TensorMath.inv is the real Cramer formula, wrapped only to expose argument and result')
+KIN_NOTE9 = ('finite deformations: the transcendental identity the commit consistency rests on, log(Fe_new^T Fe_new) = log(Fe^T Fe) - 2 dEp for dEp coaxial with '
+             'Fe^T Fe, with Fe_new = Fe exp(-dEp), stays ASSUMED; what is proved is the wiring it needs: Fp_new = exp_symm(dEp) @ Fp_old (left multiplication), dEp = the '
+             'plastic-strain part of the increment computed for the trial strain, trial strain = dev(log_sqrt_symm(Fe^T Fe)) + log1p(det(F) - 1)/3 I, Fe = F inv(Fp_old)')
+
+
+def _m33(a):
+    a = onp.asarray(a, dtype=object).reshape(3, 3)
+    return [[a[r, c] for c in range(3)] for r in range(3)]
+
+
+def _mm(A, B):
+    return [[v_sum([v_mul(A[r][k], B[k][c]) for k in range(3)]) for c in range(3)] for r in range(3)]
+
+
+def _tr(A):
+    return [[A[c][r] for c in range(3)] for r in range(3)]
+
+
+def _det(A):
+    t = lambda a, b, c: v_mul(a, v_mul(b, c))
+    return v_sub(v_sum([t(A[0][0], A[1][1], A[2][2]), t(A[0][1], A[1][2], A[2][0]), t(A[0][2], A[1][0], A[2][1])]),
+                 v_sum([t(A[0][0], A[1][2], A[2][1]), t(A[0][1], A[1][0], A[2][2]), t(A[0][2], A[1][1], A[2][0])]))
+
+
+def f_kinematics(kin):
+    def f(H, st, INC, L, X, E, nu, Y0, Hm, dt):
+        J2, Hd, SRF, TM = _mods()
+        cap = dict(inc=[], ten=[], exp=[], inv=[])
+        real_inv = TM.inv
+
+        def csi(el, state, dt_, props, hm):
+            cap['inc'].append((el, state))
+            return INC
+
+        def ten(A, *a):
+            cap['ten'].append(A)
+            return L
+
+        def exps(A):
+            cap['exp'].append(A)
+            return X
+
+        def invw(A):
+            Y = real_inv(A)
+            cap['inv'].append((A, Y))
+            return Y
+        props = {'elastic modulus': E, 'poisson ratio': nu, 'yield strength': Y0, 'hardening model': 'linear', 'hardening modulus': Hm}
+        if kin is not None:
+            props['kinematics'] = kin
+        z33, z10 = jnp.zeros((3, 3)), jnp.zeros(10)
+        with patched(J2, compute_state_increment=csi), patched(TM, log_sqrt_symm=ten, pow_symm=ten, exp_symm=exps, inv=invw):
+            m = J2.create_material_model_functions(props)
+            W = m.compute_energy_density(H, st, dt)
+            n_e = (len(cap['inc']), len(cap['ten']))
+            stn = m.compute_state_new(H, st, dt)
+        inc_e = cap['inc'][0] if n_e[0] >= 1 else (z33, z10)
+        inc_s = cap['inc'][n_e[0]] if len(cap['inc']) > n_e[0] else (z33, z10)
+        ten_e = cap['ten'][0] if n_e[1] >= 1 else z33
+        ten_s = cap['ten'][n_e[1]] if len(cap['ten']) > n_e[1] else z33
+        f.info = dict(n_inc=len(cap['inc']), n_ten_energy=n_e[1], n_ten_update=len(cap['ten']) - n_e[1], n_exp=len(cap['exp']), n_inv=len(cap['inv']))
+        inv_in, inv_out = cap['inv'][-1] if cap['inv'] else (z33, z33)
+        return dict(stn=stn, W=W, el_e=inc_e[0], st_e=inc_e[1], el_s=inc_s[0], st_s=inc_s[1], ten_e=ten_e, ten_s=ten_s,
+                    exp_arg=cap['exp'][-1] if cap['exp'] else z33, inv_in=inv_in, inv_out=inv_out, tr_ref=jnp.log1p(TM.detpIm1(H)))
+    return f
+
+
+@obligation(P, 'O9.kinematics_wiring', cap=600)
+def o9(h):
+    """every kinematics option of create_material_model_functions: the trial elastic strain handed to compute_state_increment inside
+    compute_state_new is the same function of (dispGrad, stateOld) as the elastic strain of the energy density (same tensor-function
+    argument, same expression); small/Seth-Hill: additive state update, Seth-Hill power argument F^T F; finite deformations:
+    multiplicative update Fp_new = exp_symm(dEp) @ Fp_old with dEp the plastic-strain part of the computed increment, trial strain from
+    Fe^T Fe with Fe = F inv(Fp_old), eqps_new = eqps_old + d eqps"""
+    J2, Hd, SRF, TM = _mods()
+    from ..jxh import Case
+    h.encoded(J2.create_material_model_functions, J2.compute_state_new_small_deformations, J2.compute_state_new_seth_hill, J2.compute_state_new_finite_deformations,
+              J2.compute_elastic_linear_strain, J2.compute_elastic_seth_hill_strain, J2.compute_elastic_logarithmic_strain, J2._energy_density, TM.inv, TM.detpIm1, TM.dev, TM.sym)
+    h.bounds('dispGrad, state (eqps + 9 components), state increment, values of the tensor functions: every real number; finite deformations: det(Fp_old) != 0; '
+             'moduli: any reals with 1 + nu != 0, 1 - 2 nu != 0 (they do not enter the wiring)')
+    h.assume_note(STUB_TENSOR, KIN_NOTE9, 'symbolic denominators (det Fp_old, 1+nu, 1-2nu) are assumed non-zero')
+    h.outside('the tensor functions themselves (C12) and the log-additivity identity (assumed)', 'compute_material_qoi (_compute_dissipation always uses the logarithmic strain, whatever the kinematics option)')
+    ex = dict(H=onp.array([[.1, .02, 0.], [.03, -.05, .01], [0., .02, .04]]), st=onp.concatenate([[0.01], (onp.eye(3) + 0.01 * onp.arange(9).reshape(3, 3)).ravel()]),
+              INC=0.01 * onp.arange(1, 11), L=onp.eye(3) + 0.01 * onp.arange(9).reshape(3, 3)[::-1], X=onp.eye(3) + 0.02 * onp.arange(9).reshape(3, 3), E=200.0, nu=0.3, Y0=1.0, Hm=2.0, dt=1.0)
+    smp = lambda rng: [rng.normal(size=(3, 3)) * 0.2, onp.concatenate([[abs(rng.normal()) * 0.1], (onp.eye(3) + 0.2 * rng.normal(size=(3, 3))).ravel()]), rng.normal(size=10) * 0.1,
+                       onp.eye(3) + 0.2 * rng.normal(size=(3, 3)), onp.eye(3) + 0.2 * rng.normal(size=(3, 3)), 10 ** rng.uniform(1, 3), rng.uniform(0, 0.45), 1.0, 2.0, 1.0]
+    for tag, kin in KINEMATICS:
+        f = f_kinematics(kin)
+        c = Case(h, f, ex, sampler=smp, label='kinematics[%s]' % tag, validate=2)
+        finite = tag.startswith('finite')
+        info = f.info
+        h.fact('%s.call_counts' % tag, True, 'compute_state_increment calls %(n_inc)d, tensor-function calls energy %(n_ten_energy)d / update %(n_ten_update)d, exp_symm %(n_exp)d, inv %(n_inv)d' % info, nontrivial=False)
+
+        def spec(i, o, tag=tag, finite=finite):
+            st, INC, Hh = list(i['st']), list(i['INC']), _m33(i['H'])
+            F = [[v_add(Hh[r][c], 1.0 if r == c else 0.0) for c in range(3)] for r in range(3)]
+            P9 = _m33(st[1:])
+            Lm = _m33(i['L'])
+            I3 = [[1.0 if r == c else 0.0 for c in range(3)] for r in range(3)]
+            asm = []
+            ats = [Eq(flat(o['el_s']), flat(o['el_e']), name='trial_strain_of_update_is_elastic_strain_of_energy'),
+                   Eq(flat(o['st_s']), st, name='increment_computed_from_old_state'), Eq(flat(o['st_e']), st, name='energy_increment_computed_from_given_state')]
+            if tag != 'small':
+                ats.append(Eq(flat(o['ten_s']), flat(o['ten_e']), name='tensor_function_argument_of_update_is_that_of_energy'))
+            if tag == 'small':
+                ats.append(Eq(flat(o['el_e']), [v_sub(v_mul(0.5, v_add(Hh[r][c], Hh[c][r])), P9[r][c]) for r in range(3) for c in range(3)], name='elastic_strain_is_sym_dispGrad_minus_plastic_strain'))
+            if tag == 'seth_hill':
+                ats.append(Eq(flat(o['ten_e']), flat(_mm(_tr(F), F)), name='power_argument_is_Ft_F'))
+                ats.append(Eq(flat(o['el_e']), [v_sub(v_mul(2.0, v_sub(Lm[r][c], I3[r][c])), P9[r][c]) for r in range(3) for c in range(3)], name='elastic_strain_is_seth_hill_m_quarter_minus_plastic_strain'))
+            if not finite:
+                ats.append(Eq(list(o['stn']), [v_add(a, b) for a, b in zip(st, INC)], name='additive_state_update'))
+            else:
+                Y, Xm = _m33(o['inv_out']), _m33(i['X'])
+                asm.append(v_not(v_eq(_det(P9), 0.0)))
+                FY = _mm(F, Y)
+                trL = v_sum([Lm[0][0], Lm[1][1], Lm[2][2]])
+                tref = s0(o['tr_ref'])
+                ats += [Eq(flat(o['inv_in']), flat(P9), name='c.inverted_matrix_is_Fp_old'),
+                        Eq(flat(_mm(P9, Y)), flat(I3), name='c.inverse_is_right_inverse_of_Fp_old'),
+                        Eq(flat(o['ten_e']), flat(_mm(_tr(FY), FY)), name='c.log_argument_is_FeT_Fe'),
+                        Eq([v_mul(3.0, e) for e in flat(o['el_e'])], [v_add(v_sub(v_mul(3.0, Lm[r][c]), v_mul(I3[r][c], trL)), v_mul(I3[r][c], tref)) for r in range(3) for c in range(3)],
+                           name='c.trial_strain_is_dev_log_plus_log1p_detF_third'),
+                        Eq(flat(o['exp_arg']), INC[1:], name='a.exp_argument_is_plastic_strain_increment'),
+                        Eq(list(o['stn'])[1:], flat(_mm(Xm, P9)), name='b.Fp_new_is_exp_times_Fp_old'),
+                        Eq(list(o['stn'])[0], v_add(st[0], INC[0]), name='d.eqps_new_is_eqps_old_plus_increment')]
+            return asm, ats
+        c.prove(tag, spec, cap=60, order=('core', 'nlsat'))
